@@ -55,6 +55,7 @@ type Link struct {
 	Peer  int      // link index frames are delivered to (-1: scripted peer reads the queue)
 	Sent  int
 	rx    chan func() // receive goroutine's inbox (created on first no-wait injection)
+	NoLog bool        // frames of this link are left out of the event-log hash (their bytes depend on map iteration order)
 }
 
 func (l *Link) MTU() uint32                                  { return l.mtu }
@@ -82,9 +83,11 @@ func (l *Link) WritePacket(r *stack.Route, hdr buffer.Prependable, payload buffe
 	w.nframes++
 	l.Sent++
 	l.Queue = append(l.Queue, f)
-	w.Log.Byte(byte(l.Idx))
-	w.Log.U64(uint64(f.At))
-	w.Log.Bytes(data)
+	if !l.NoLog {
+		w.Log.Byte(byte(l.Idx))
+		w.Log.U64(uint64(f.At))
+		w.Log.Bytes(data)
+	}
 	w.Emitted = append(w.Emitted, f)
 	if w.TraceOn {
 		w.Tracef("emit link=%d frame=%d %s", l.Idx, f.ID, describe(f))
@@ -277,8 +280,10 @@ func (w *World) Inject(l *Link, proto tcpip.NetworkProtocolNumber, data []byte, 
 	if l.disp == nil {
 		return
 	}
-	w.Log.Byte(0x80 | byte(l.Idx))
-	w.Log.Bytes(data)
+	if !l.NoLog {
+		w.Log.Byte(0x80 | byte(l.Idx))
+		w.Log.Bytes(data)
+	}
 	if l.rx != nil {
 		// arrivals of one link are handled in order: behind whatever its receive
 		// goroutine still has to process
@@ -486,8 +491,10 @@ func (w *World) InjectNoWait(l *Link, proto tcpip.NetworkProtocolNumber, data []
 	if l.disp == nil {
 		return
 	}
-	w.Log.Byte(0x80 | byte(l.Idx))
-	w.Log.Bytes(data)
+	if !l.NoLog {
+		w.Log.Byte(0x80 | byte(l.Idx))
+		w.Log.Bytes(data)
+	}
 	vv := views(data, mode)
 	f := func() { l.disp.DeliverNetworkPacket(l, "", "", proto, vv) }
 	if l.rx == nil {
